@@ -912,6 +912,7 @@ def judge_structure(ctx, case, buf, trace, exc=None):
         if b.ok and b.consumed == d.size:
             continue
         keys = {'block_type': d.block_type, 'block': '/'.join(d.name)}
+        diag = ''
         if d.block_type == 'pix_data_block':
             keys['mechanism'] = pix_mechanism(trace)
             if keys['mechanism'] == 'none':
@@ -923,19 +924,24 @@ def judge_structure(ctx, case, buf, trace, exc=None):
         else:
             sm = string_mechanism(buf, d, bo)
             if sm:
-                keys.update(sm)
+                keys['mechanism'], keys['site'] = sm['mechanism'], sm['site']
+                diag = (f"; decodes completely if char lengths count characters: fields {sm['fields']} "
+                        f"declare/occupy {sm['declared_chars_vs_bytes']} chars/bytes")
             else:
                 keys['mechanism'] = 'data_block_extent'
         tr = wpb.get('/'.join(d.name))
         if tr:
-            keys['bytes_written'] = tr['written']
-            keys['bytes_declared'] = tr['declared_size']
+            diag += f"; writer trace: {tr['written']} bytes written, {tr['declared_size']} declared"
+        if d.block_type == 'pix_data_block' and (trace or {}).get('pix'):
+            p = trace['pix']
+            diag += (f"; {p['chunk_writes']} chunk writes of chunk_size={p['chunk_size']} put "
+                     f"{p['pixels_written']} of {p['npix']} pixels")
         if not b.ok:
             ctx.violation('block_incomplete', f'{d.name} ({d.block_type}, extent {d.position}+{d.size}) '
-                          f'does not decode: {b.error} at byte {b.error_offset}', cs, **keys)
+                          f'does not decode: {b.error} at byte {b.error_offset}{diag}', cs, **keys)
         else:
             ctx.violation('block_size', f'{d.name} ({d.block_type}) decodes in {b.consumed} bytes, '
-                          f'extent declares {d.size}', cs, **keys)
+                          f'extent declares {d.size}{diag}', cs, **keys)
         if d.position + d.size > len(buf):
             reported_eof = True
     if not file_end_ok and not reported_eof:
